@@ -12,8 +12,8 @@ RULE = ("tree of four 131073-byte files that share prefix and suffix (two equal,
         "small files, on ext4 (deleted inode numbers are reused at once); events: edits {set content variant (same "
         "length; also with the new mtime in the past of the old one), append, truncate, rename, delete+recreate, hard-link, create, edit a small file} - every edit advances "
         "the file's mtime by 10 ms - and runs `group --cache` with a configuration from {metro, blake3} x {no transform, "
-        "transform cat} x --max-prefix-size {unset, 8192} or with the length-changing transform `head -c 1000`, or a run SIGKILLed at 1/4, 1/2, 3/4 of its call history; "
-        "ALL histories (edit, run)^d after an initial cache-filling run: quick d=2 over 10 edits x 2 configurations; "
+        "transform cat} x --max-prefix-size {unset, 8192} or with the length-changing transforms `head -c 1000` / `head -c 70000` (same program, different classes), or a run SIGKILLed at 1/4, 1/2, 3/4 of its call history; "
+        "ALL histories (edit, run)^d after an initial cache-filling run: quick d=2 over 10 edits x 2 configurations + 5 edits x the (head, head2) switches; "
         "thorough d=2 over the full alphabet and d=3 over 6 edits x 2 configurations (+ killed runs). A state is the "
         "tree + cache after a history prefix; a transition is one event. Invariant after every run: the report body "
         "(lengths, hashes, paths, order) of the cached run equals that of an uncached run of the same configuration on "
@@ -46,6 +46,8 @@ CONFIGS = {
     "blake3_tr_p8k": ["--hash-fn", "blake3", "--max-prefix-size", "8192"] + ["--transform", "cat"],
     # a transform that changes the length: files of different input length get identical output
     "metro_head": ["--hash-fn", "metro", "--transform", "head -c 1000"],
+    # the same program with another argument: the four big files fall into different classes than under `head -c 1000`
+    "metro_head2": ["--hash-fn", "metro", "--transform", "head -c 70000"],
 }
 
 
@@ -59,6 +61,12 @@ def cases(tier, seed):
         steps = [(e, c) for e in EDITS_QUICK for c in ("metro", "metro_head")]
         for h in itertools.product(steps, repeat=2):
             out.append({"history": [list(map(list, h))[i] for i in range(2)], "kills": False})
+        # switching between two transforms that run the same program with different arguments
+        few = EDITS_QUICK[:3] + EDITS_QUICK[5:7]
+        for c1, c2 in (("metro_head", "metro_head2"), ("metro_head2", "metro_head"), ("metro_head2", "metro_head2")):
+            for e1 in few:
+                for e2 in few:
+                    out.append({"history": [[list(e1), c1], [list(e2), c2]], "kills": False})
     else:
         steps = [(e, c) for e in EDITS_FULL for c in CONFIGS]
         for h in itertools.product(steps, repeat=2):
